@@ -29,6 +29,11 @@ pub open spec fn same_but(m1: Map<i32, Job>, m2: Map<i32, Job>, k: i32) -> bool 
     forall|k2: i32| #![trigger m1.contains_key(k2)] #![trigger m2.contains_key(k2)] #![trigger m1[k2]] #![trigger m2[k2]]
         k2 != k ==> (m1.contains_key(k2) == m2.contains_key(k2)) && (m1.contains_key(k2) ==> m1[k2] == m2[k2])
 }
+pub open spec fn job_all_stopped(j: Job) -> bool { forall|i: int| 0 <= i < j.pids@.len() ==> j.pids_stopped@.contains(#[trigger] j.pids@[i]) }
+pub open spec fn job_after_remove(a: Job, b: Job, pid: i32) -> bool {
+    a.id == b.id && a.gid == b.gid && a.pids_stopped@ == b.pids_stopped@.remove(pid) && a.is_bg == b.is_bg
+    && a.status@ == (if a.pids@.len() > 0 && job_all_stopped(a) { "Stopped"@ } else { b.status@ })
+}
 pub open spec fn job_eq_except_cmd_pids(a: Job, b: Job) -> bool {
     a.id == b.id && a.gid == b.gid && a.pids_stopped@ == b.pids_stopped@ && a.status@ == b.status@ && a.is_bg == b.is_bg
 }
@@ -140,6 +145,44 @@ pub open spec fn last_status(d: Seq<WaitStatus>, from: int, n: int, pid: i32, df
     else { last_status(d, from, n - 1, pid, dflt) }
 }
 
+// has `pid` exited, been killed or been stopped -- and not been continued since -- according to delivered[from..n]? (its latest event decides)
+pub open spec fn settled_at(d: Seq<WaitStatus>, from: int, n: int, pid: i32) -> bool
+    decreases n - from
+{
+    if n <= from { false }
+    else if d[n - 1].0 == pid && d[n - 1].1 != 255 { d[n - 1].1 != 3 }
+    else { settled_at(d, from, n - 1, pid) }
+}
+pub proof fn lemma_settled_ext(d1: Seq<WaitStatus>, d2: Seq<WaitStatus>, from: int, n: int, pid: i32)
+    requires 0 <= from, n <= d1.len(), n <= d2.len(), forall|i: int| 0 <= i < n ==> d1[i] == d2[i],
+    ensures settled_at(d1, from, n, pid) == settled_at(d2, from, n, pid),
+    decreases n - from
+{
+    if n > from { lemma_settled_ext(d1, d2, from, n - 1, pid); }
+}
+// a settled member has reported an exit / kill / stop
+pub proof fn lemma_settled_has_event(d: Seq<WaitStatus>, from: int, n: int, pid: i32)
+    requires 0 <= from <= n <= d.len(), settled_at(d, from, n, pid),
+    ensures exists|i: int| from <= i < n && (#[trigger] d[i]).0 == pid && d[i].1 != 3 && d[i].1 != 255,
+    decreases n - from
+{
+    if n > from {
+        if d[n - 1].0 == pid && d[n - 1].1 != 255 { assert(d[n - 1].0 == pid); }
+        else { lemma_settled_has_event(d, from, n - 1, pid); }
+    }
+}
+// a set of members that is as large as the (duplicate-free) member list is the whole list
+pub proof fn lemma_all_members(s: Set<i32>, pids: Seq<i32>)
+    requires s.finite(), pids.no_duplicates(), forall|p: i32| s.contains(p) ==> pids.contains(p), s.len() >= pids.len(),
+    ensures forall|p: i32| pids.contains(p) ==> s.contains(p),
+{
+    pids.unique_seq_to_set();
+    let ps = pids.to_set();
+    assert(s.subset_of(ps)) by { assert forall|p: i32| s.contains(p) implies ps.contains(p) by { assert(pids.contains(p)); } }
+    vstd::set_lib::lemma_len_subset(s, ps);
+    vstd::set_lib::lemma_subset_equality(s, ps);
+    assert forall|p: i32| pids.contains(p) implies s.contains(p) by { assert(ps.contains(p)); }
+}
 // number of non-continue events of foreground members among delivered[from..n]
 pub open spec fn fg_events(d: Seq<WaitStatus>, from: int, n: int, pids: Seq<i32>) -> int
     decreases n - from
@@ -210,7 +253,7 @@ mark_job_as_done = Fn(J, 'mark_job_as_done', rewrites=RW,
          '&& same_but(final(sh).jobs@, old(sh).jobs@, k) '
          '&& ((!final(sh).jobs@.contains_key(k) && forall|p: i32| old(sh).jobs@[k].pids@.contains(p) ==> p == pid) '
          '    || (final(sh).jobs@.contains_key(k) && removed_one(old(sh).jobs@[k].pids@, final(sh).jobs@[k].pids@, pid) '
-         '        && !final(sh).jobs@[k].pids@.contains(pid) && job_eq_except_cmd_pids(final(sh).jobs@[k], old(sh).jobs@[k])))'),
+         '        && !final(sh).jobs@[k].pids@.contains(pid) && job_after_remove(final(sh).jobs@[k], old(sh).jobs@[k], pid)))'),
     ],
     let_types={})
 mark_job_as_done.ensures.append(
@@ -241,11 +284,17 @@ jc_member_continued = Fn(J, 'mark_job_member_continued', rewrites=RW + [Rw('unsa
     ensures=[('C06.jc_member_continued.wf', 'wf(final(sh).jobs@)'),
              ('C06.jc_member_continued.dom', 'final(sh).jobs@.dom() == old(sh).jobs@.dom()'),
              ('C06.jc_member_continued.running_when_a_member_runs',
-              'forall|k: i32| final(sh).jobs@.contains_key(k) && #[trigger] final(sh).jobs@[k].gid == gid && gid != 0 && old(sh).jobs@[k].pids@.contains(pid) ==> '
-              'final(sh).jobs@[k].status@ == "Running"@')])
+              'has_gid(old(sh).jobs@, gid) ==> exists|k: i32| old(sh).jobs@.contains_key(k) && #[trigger] old(sh).jobs@[k].gid == gid '
+              '&& final(sh).jobs@.contains_key(k) && final(sh).jobs@[k].gid == gid && final(sh).jobs@[k].status@ == "Running"@ '
+              '&& !final(sh).jobs@[k].pids_stopped@.contains(pid)')])
 jc_running = Fn(J, 'mark_job_as_running', rewrites=RW,
     requires=[('C06.pre.wf', 'wf(old(sh).jobs@)')],
-    ensures=[('C06.jc_running.wf', 'wf(final(sh).jobs@)'), ('C06.jc_running.dom', 'final(sh).jobs@.dom() == old(sh).jobs@.dom()')])
+    ensures=[('C06.jc_running.wf', 'wf(final(sh).jobs@)'), ('C06.jc_running.dom', 'final(sh).jobs@.dom() == old(sh).jobs@.dom()'),
+             ('C06.jc_running.whole_view',
+              '(!has_gid(old(sh).jobs@, gid) ==> final(sh).jobs@ == old(sh).jobs@) && (has_gid(old(sh).jobs@, gid) ==> exists|k: i32| old(sh).jobs@.contains_key(k) && #[trigger] old(sh).jobs@[k].gid == gid '
+              '&& final(sh).jobs@.contains_key(k) && same_but(final(sh).jobs@, old(sh).jobs@, k) '
+              '&& final(sh).jobs@[k].pids_stopped@ =~= Set::<i32>::empty() && final(sh).jobs@[k].status@ == "Running"@ && final(sh).jobs@[k].is_bg == bg '
+              '&& final(sh).jobs@[k].pids@ == old(sh).jobs@[k].pids@ && final(sh).jobs@[k].id == k && final(sh).jobs@[k].gid == gid)')])
 
 NEW_EVENTS = 'old(k).delivered.len() <= i < K.delivered.len()'
 wait_fg_job = Fn(J, 'wait_fg_job', ret='r', rewrites=RW,
@@ -260,7 +309,8 @@ wait_fg_job = Fn(J, 'wait_fg_job', ret='r', rewrites=RW,
     add_params='Tracked(k): Tracked<&mut Kernel>',
     ghost_args={'waitpidx': 'Tracked(k)', 'insert_reap_map': 'Tracked(k)', 'insert_stopped_map': 'Tracked(k)',
                 'insert_cont_map': 'Tracked(k)', 'killed_map_insert': 'Tracked(k)'},
-    requires=[('C06.pre.wf', 'wf(old(sh).jobs@)'), ('C06.pre.pids_positive', 'forall|i: int| 0 <= i < pids@.len() ==> (#[trigger] pids@[i]) > 0')],
+    requires=[('C06.pre.wf', 'wf(old(sh).jobs@)'), ('C06.pre.pids_positive', 'forall|i: int| 0 <= i < pids@.len() ==> (#[trigger] pids@[i]) > 0'),
+              ('C06.pre.pids_distinct', 'pids@.no_duplicates()')],
     ensures=[
         ('C06.wait.wf', 'wf(final(sh).jobs@)'),
         ('C06+C07.wait.no_background_event_lost',
@@ -269,9 +319,10 @@ wait_fg_job = Fn(J, 'wait_fg_job', ret='r', rewrites=RW,
         ('C02.wait.status_is_last_stage_status',
          'pids@.len() > 0 ==> (final(k).delivered.len() > old(k).delivered.len() && fatal_error(final(k).delivered.last())) '
          '|| r.status as int == last_status(final(k).delivered, old(k).delivered.len() as int, final(k).delivered.len() as int, pids@.last(), 0)'),
-        ('C02+C06.wait.returns_only_after_one_event_per_stage',
-         'pids@.len() > 0 ==> (final(k).delivered.len() > old(k).delivered.len() && final(k).delivered.last().1 == 255) '
-         '|| fg_events(final(k).delivered, old(k).delivered.len() as int, final(k).delivered.len() as int, pids@) >= pids@.len()'),
+        # THE PROPERTY: the wait returns exactly when each member has exited or is stopped (and has not been continued since)
+        ('C02+C06.wait.returns_when_every_member_has_exited_or_is_stopped',
+         'pids@.len() > 0 && !(final(k).delivered.len() > old(k).delivered.len() && final(k).delivered.last().1 == 255) ==> '
+         'forall|p: i32| pids@.contains(p) ==> #[trigger] settled_at(final(k).delivered, old(k).delivered.len() as int, final(k).delivered.len() as int, p)'),
         ('C02+C06.wait.returns_only_when_every_stage_reported',
          'pids@.len() > 0 && !(final(k).delivered.len() > old(k).delivered.len() && final(k).delivered.last().1 == 255) ==> '
          'forall|p: i32| pids@.contains(p) ==> exists|i: int| ' + NEW_EVENTS.replace('K', 'final(k)') +
@@ -279,26 +330,38 @@ wait_fg_job = Fn(J, 'wait_fg_job', ret='r', rewrites=RW,
     ],
     loops={0: Loop(invariant=[
         ('C06.inv.wait.wf', 'wf(sh.jobs@)'),
-        ('C06.inv.wait.stream', 'old(k).delivered.len() <= k.delivered.len() && count_child == pids@.len() && pids@.len() > 0 && *pid_last == pids@.last() && forall|i: int| 0 <= i < pids@.len() ==> (#[trigger] pids@[i]) > 0'),
+        ('C06.inv.wait.stream', 'old(k).delivered.len() <= k.delivered.len() && count_child == pids@.len() && pids@.len() > 0 && *pid_last == pids@.last() && pids@.no_duplicates() '
+                                '&& forall|i: int| 0 <= i < pids@.len() ==> (#[trigger] pids@[i]) > 0'),
         ('C06+C07.inv.wait.parked',
          'forall|i: int| ' + NEW_EVENTS.replace('K', 'k') + ' && !pids@.contains((#[trigger] k.delivered[i]).0) '
          '&& 0 <= k.delivered[i].1 <= 3 && k.delivered[i].0 > 0 ==> parked(*k, k.delivered[i])'),
+        ('C06.inv.wait.events_valid', 'forall|i: int| ' + NEW_EVENTS.replace('K', 'k') + ' ==> ws_valid(#[trigger] k.delivered[i])'),
     ], invariant_except_break=[
-        ('C05.inv.wait.count', 'count_waited < count_child'),
-        ('C02+C06.inv.wait.count_is_fg_events', 'count_waited as int == fg_events(k.delivered, old(k).delivered.len() as int, k.delivered.len() as int, pids@)'),
+        ('C02+C06.inv.wait.settled_is_the_set_of_members_that_exited_or_are_stopped',
+         'settled@.finite() && (forall|p: i32| #[trigger] settled@.contains(p) ==> pids@.contains(p) && settled_at(k.delivered, old(k).delivered.len() as int, k.delivered.len() as int, p)) '
+         '&& (forall|p: i32| pids@.contains(p) && #[trigger] settled_at(k.delivered, old(k).delivered.len() as int, k.delivered.len() as int, p) ==> settled@.contains(p))'),
         ('C02.inv.wait.status', 'cmd_result.status as int == last_status(k.delivered, old(k).delivered.len() as int, k.delivered.len() as int, pids@.last(), 0)'),
     ], ensures=[
-        ('C02+C06.inv.wait.exit_after_enough_fg_events',
+        ('C02+C06.inv.wait.exit_when_every_member_settled',
          '(k.delivered.len() > old(k).delivered.len() && k.delivered.last().1 == 255) '
-         '|| fg_events(k.delivered, old(k).delivered.len() as int, k.delivered.len() as int, pids@) >= pids@.len()'),
+         '|| forall|p: i32| pids@.contains(p) ==> #[trigger] settled_at(k.delivered, old(k).delivered.len() as int, k.delivered.len() as int, p)'),
         ('C02.inv.wait.exit_status',
          '(k.delivered.len() > old(k).delivered.len() && fatal_error(k.delivered.last())) '
          '|| cmd_result.status as int == last_status(k.delivered, old(k).delivered.len() as int, k.delivered.len() as int, pids@.last(), 0)'),
     ])},
     hints={'before-call:waitpidx': 'RAW: let ghost __d0 = k.delivered;',
            'after-call:waitpidx': 'lemma_last_status_ext(__d0, k.delivered, old(k).delivered.len() as int, __d0.len() as int, pids@.last(), 0); '
-                                  'lemma_fg_events_ext(__d0, k.delivered, old(k).delivered.len() as int, __d0.len() as int, pids@);'},
-    let_types={'count_waited': 'usize'},
+                                  'assert forall|p: i32| settled_at(__d0, old(k).delivered.len() as int, __d0.len() as int, p) == #[trigger] settled_at(k.delivered, old(k).delivered.len() as int, __d0.len() as int, p) by '
+                                  '{ lemma_settled_ext(__d0, k.delivered, old(k).delivered.len() as int, __d0.len() as int, p); } '
+                                  'assert(k.delivered.len() == __d0.len() + 1 && k.delivered[__d0.len() as int] == ws); '
+                                  'assert forall|p: i32| #[trigger] settled_at(k.delivered, old(k).delivered.len() as int, k.delivered.len() as int, p) == '
+                                  '(if ws.0 == p && ws.1 != 255 { ws.1 != 3 } else { settled_at(k.delivered, old(k).delivered.len() as int, __d0.len() as int, p) }) by { }',
+           'after-text:if settled.len() >= count_child {': 'lemma_all_members(settled@, pids@);',
+           'loop-0-exit': 'assert forall|p: i32| pids@.contains(p) && settled_at(k.delivered, old(k).delivered.len() as int, k.delivered.len() as int, p) implies '
+                          'exists|i: int| old(k).delivered.len() <= i < k.delivered.len() && (#[trigger] k.delivered[i]).0 == p && 0 <= k.delivered[i].1 <= 2 by '
+                          '{ lemma_settled_has_event(k.delivered, old(k).delivered.len() as int, k.delivered.len() as int, p); '
+                          'let i = choose|i: int| old(k).delivered.len() <= i < k.delivered.len() && (#[trigger] k.delivered[i]).0 == p && k.delivered[i].1 != 3 && k.delivered[i].1 != 255; assert(ws_valid(k.delivered[i])); }'},
+    let_types={},
 )
 
 UNIT = Unit('U-WAIT', TEMPLATE,
